@@ -55,13 +55,29 @@ def _resolve(source_part, target):
     return posixpath.normpath(posixpath.join(posixpath.dirname(source_part), target))
 
 
+class _Parts(dict):
+    """member name -> bytes, with every XML part parsed at most once (root(name) is None if malformed/absent)"""
+
+    def __init__(self, *a):
+        super().__init__(*a)
+        self._roots = {}
+
+    def root(self, name):
+        if name not in self._roots:
+            r = None
+            if name in self:
+                try:
+                    r = ET.fromstring(self[name])
+                except ET.ParseError:
+                    r = None
+            self._roots[name] = r
+        return self._roots[name]
+
+
 def _read_rels(parts, relspart):
     """[(Id, Type, Target, TargetMode)] of a relationship part, [] if absent / malformed"""
-    if relspart not in parts:
-        return []
-    try:
-        root = ET.fromstring(parts[relspart])
-    except ET.ParseError:
+    root = parts.root(relspart)
+    if root is None:
         return []
     return [(r.get("Id", ""), r.get("Type", ""), r.get("Target", ""), r.get("TargetMode", ""))
             for r in root.findall("{%s}Relationship" % NS_PR)]
@@ -82,7 +98,7 @@ def view(data):
     try:
         z = zipfile.ZipFile(io.BytesIO(data))
         names = z.namelist()
-        parts = {}
+        parts = _Parts()
         for n in names:
             if n not in parts:
                 parts[n] = z.read(n)
@@ -91,22 +107,17 @@ def view(data):
     out["zip"] = True
     out["dup"] = sorted({n for n in names if names.count(n) > 1})
     wf = True
-    for n, b in parts.items():
-        if n.endswith(".xml") or n.endswith(".rels"):
-            try:
-                ET.fromstring(b)
-            except ET.ParseError:
-                wf = False
+    for n in parts:
+        if (n.endswith(".xml") or n.endswith(".rels")) and parts.root(n) is None:
+            wf = False
     out["wf"] = wf
     # content types
     defaults, overrides = set(), set()
     if "[Content_Types].xml" in parts:
-        try:
-            ct = ET.fromstring(parts["[Content_Types].xml"])
+        ct = parts.root("[Content_Types].xml")
+        if ct is not None:
             defaults = {d.get("Extension", "").lower() for d in ct.findall("{%s}Default" % NS_CT)}
             overrides = {o.get("PartName", "") for o in ct.findall("{%s}Override" % NS_CT)}
-        except ET.ParseError:
-            pass
     else:
         out["ct"].append("[Content_Types].xml")
     for n in sorted(parts):
@@ -129,11 +140,11 @@ def view(data):
             if t not in parts:
                 out["missing"].append(n + " -> " + t)
     # sheets
-    try:
-        wb = ET.fromstring(parts["xl/workbook.xml"])
+    wb = parts.root("xl/workbook.xml")
+    if wb is not None:
         sheets_el = wb.find("{%s}sheets" % NS_MAIN)
         sheet_els = list(sheets_el) if sheets_el is not None else []
-    except Exception:
+    else:
         out["wf"] = False
         sheet_els = []
     wbrels = {r[0]: r for r in _read_rels(parts, "xl/_rels/workbook.xml.rels")}
@@ -160,14 +171,13 @@ def view(data):
             e["relsig"] = hashlib.sha1(repr(sorted(rels)).encode()).hexdigest()[:16]
         e["ids"] = sorted({r[0] for r in rels})
         used = set()
-        try:
-            root = ET.fromstring(parts[part])
+        root = parts.root(part)
+        if root is not None:
+            pre = "{%s}" % NS_R
             for el in root.iter():
                 for k, v in el.attrib.items():
-                    if k.startswith("{%s}" % NS_R):
+                    if k.startswith(pre):
                         used.add(v)
-        except ET.ParseError:
-            pass
         e["used"] = sorted(used)
         e["unres"] = sorted(used - set(e["ids"]))
         refs = set()
@@ -179,23 +189,17 @@ def view(data):
                 m2 = re.match(r"^table(\d+)\.xml$", posixpath.basename(t))
                 nm = ""
                 if t in parts:
-                    try:
-                        nm = ET.fromstring(parts[t]).get("name", "")
-                    except ET.ParseError:
-                        nm = "!malformed"
+                    nm = parts.root(t).get("name", "") if parts.root(t) is not None else "!malformed"
                 e["tabs"].append({"no": int(m2.group(1)) if m2 else 0, "name": nm})
             if ty.endswith("/drawing") and t in parts:
                 for (_i2, ty2, target2, mode2) in _read_rels(parts, _rels_of(t)):
                     if ty2.endswith("/chart") and mode2 != "External":
                         ch = _resolve(t, target2)
-                        if ch in parts:
-                            try:
-                                for f in ET.fromstring(parts[ch]).iter("{%s}f" % NS_C):
-                                    r = _sheet_refs(f.text or "")
-                                    if r:
-                                        refs.add(r)
-                            except ET.ParseError:
-                                pass
+                        if parts.root(ch) is not None:
+                            for f in parts.root(ch).iter("{%s}f" % NS_C):
+                                r = _sheet_refs(f.text or "")
+                                if r:
+                                    refs.add(r)
         e["tablenames"] = sorted(t["name"] for t in e["tabs"])
         e["chartrefs"] = sorted(refs)
         out["sheets"].append(e)
